@@ -405,6 +405,22 @@ def direct_float(rng, tier):
             except Exception as e:
                 fails.append(dict(clause='Cholesky_raises_on_spd', signature=f'spd/cond=1e{len(str(cond)) - 1}', error=f'{type(e).__name__}: {e}'[:160]))
         if t < 3: samples.append(dict(shape=shape, m=m, n=n, cond=cond))
+    # square systems that merely LOOK symmetric to a tolerance-based test: badly scaled (entries ~1e-9) or nearly symmetric (asymmetry 1e-6) -
+    # PINV's documented default is hermitian=False: the full matrix is used
+    for t2 in range(4):
+        n_ = rng.randrange(2, 6)
+        Mq = torch.randn(n_, n_, dtype=torch.float64, generator=g) + 3 * torch.eye(n_, dtype=torch.float64)
+        Sm = Mq @ Mq.T; Ka = torch.randn(n_, n_, dtype=torch.float64, generator=g); Ka = Ka - Ka.T
+        for label, A2 in (('badly scaled non-symmetric', 1e-9 * Mq), ('nearly symmetric', Sm + 1e-6 * Ka * float(Sm.abs().max()))):
+            xs2 = torch.randn(n_, 1, dtype=torch.float64, generator=g); b2 = A2 @ xs2
+            for name, solver in (('PINV', pp.optim.solver.PINV()), ('LSTSQ', pp.optim.solver.LSTSQ())):
+                try:
+                    x2 = solver(A2, b2)
+                except Exception as e:
+                    fails.append(dict(clause=f'{name}_raises', signature=label, error=f'{type(e).__name__}: {e}'[:160])); continue
+                ferr2 = float((x2 - xs2).norm() / xs2.norm())
+                if ferr2 > 1e-7 * float(torch.linalg.cond(A2)):
+                    fails.append(dict(clause=f'{name}_solves_consistent_system_to_working_accuracy', signature=label, n=n_, forward_error=ferr2))
     uniq = {}
     for f in fails: uniq.setdefault((f['clause'], f['signature']), f)
     return dict(evaluations=evals, distinct_nontrivial=evals, rule='random orthogonal factors, log-spaced singular values, cond in {1,1e2,1e4,1e6,1e7,1e8}, sizes 1..20; distinct by seed',
